@@ -341,7 +341,7 @@ struct Gen {
     s.op.c = (uint8_t)rng.below(nt);
     if (op == OP_GENERATOR || op == OP_T_GENERATOR_M) s.op.c = (uint8_t)rng.below(vt->dof);
     if (op == OP_SMOOTH_PHI) { s.op.c = (uint8_t)(1 + rng.below(4)); s.op.s = rng.unit(); }
-    if (op == OP_INTERP_SLERP || op == OP_INTERP_CUBIC || op == OP_INTERP_SMOOTH) s.op.s = round_scalar(vt, rng.unit());
+    if (op == OP_INTERP_SLERP || op == OP_INTERP_CUBIC || op == OP_INTERP_SMOOTH) { double u = rng.unit(); s.op.s = u < 0.1 ? 0.0 : u < 0.2 ? 1.0 : round_scalar(vt, rng.unit()); }
     if (op == OP_ISAPPROX || op == OP_T_ISAPPROX) s.op.s = vt->eps * (rng.chance(0.5) ? 1 : 1e6);
     if (op == OP_T_SCALE) s.op.s = round_scalar(vt, rng.uniform(-2, 2));
     if (op == OP_TM_MULEQ || op == OP_TM_DIVEQ) s.op.s = round_scalar(vt, rng.uniform(0.5, 1.5));
@@ -356,6 +356,7 @@ struct Gen {
     if (inf.nout) s.op.mask = (uint8_t)rng.below(1u << inf.nout);
     if (inf.nout && rng.chance(0.3)) s.op.variant |= (uint8_t)rng.below(4);
     if (rng.chance(0.3)) s.op.variant |= V_FRESH;
+    if (s.op.op == OP_COEFFS && rng.chance(0.5)) s.op.variant |= V_ALT;
     if (rng.chance(0.2) && (op == OP_INTERP_SLERP || op == OP_INTERP_CUBIC || op == OP_INTERP_SMOOTH || op == OP_T_SCALE ||
                             op == OP_TM_PLUSEQ || op == OP_TM_MINUSEQ)) s.op.variant |= V_ALT;
   }
@@ -424,6 +425,7 @@ struct Gen {
       for (int i = 0; i < vt->NE; ++i) {
         ElemSpec sp; sp.neg_hemisphere = rng.chance(0.3); sp.lin_lo = 1e-2; sp.lin_hi = 10;
         if (rng.chance(0.25)) sp.angle = rng.chance(0.3) ? 0.0 : std::fabs(rng.logmag(1e-10, 1e-5));
+        spice_elem_spec(vt, rng, sp);
         if (i == 5) sp.angle = rng.chance(0.5) ? 0.0 : std::fabs(rng.logmag(1e-12, 1e-8));   // identity-like element for the sandwiches
         double c[32]; gen_elem(vt, rng, sp, c);
         plan.steps.push_back(make_set(ST_SETE, g, i, c, vt->rep));
